@@ -88,6 +88,14 @@ theorem expiry_clears (c : Cfg) (s : MSt) (op : Op) (he : expired s op.now = tru
   | advance now =>
     simp only [Op.now] at he
     rw [step_advance]; simp [getAck_of_expired, he]
+  | pump now fired =>
+    simp only [Op.now] at he
+    have he' : expired (pumped s now fired) now = true := he
+    rw [step_pump]; simp [getAck_of_expired, he']
+  | downtime on now =>
+    simp only [Op.now] at he
+    have he' : expired { s with inDowntime := on } now = true := he
+    rw [step_downtime]; simp [getAck_of_expired, he']
 
 /-- **stored_expiry_is_requested.**  Every entry point stores the expiry the operation asked for (the plain
     external command has no such argument and stores none). -/
@@ -107,13 +115,36 @@ theorem accepted_ack_stores_requested_expiry (c : Cfg) (s : MSt) (via : Via) (st
   · simp [hng]
   · simp [hc] at hacc
 
-/-- **handled_iff.**  At every look the object counts as handled iff it is a problem and acknowledged (no downtime in
-    the model); it is a problem iff a result has been accepted and the state is not OK/Up. -/
+/-- **handled_iff.**  At every look the object counts as handled iff it is a problem and acknowledged — or in a
+    downtime, the other half of the attribute; it is a problem iff a result has been accepted and the state is not
+    OK/Up.  In particular, outside downtimes: handled iff acknowledged problem. -/
 theorem handled_iff (c : Cfg) (s : MSt) (op : Op) :
     let o := obsOf c (step c s op)
-    o.handled = (o.problem && o.ack != .none) ∧
+    o.handled = (o.problem && ((step c s op).1.inDowntime || o.ack != .none)) ∧
+    ((step c s op).1.inDowntime = false → o.handled = (o.problem && o.ack != .none)) ∧
     o.problem = ((step c s op).1.base.lastExec.isSome && !isOK c.kind o.state) := by
-  simp [obsOf, handledOf, problemOf]
+  refine ⟨?_, ?_, ?_⟩
+  · simp [obsOf, handledOf, problemOf]
+  · intro h; simp [obsOf, handledOf, problemOf, h]
+  · simp [obsOf, problemOf]
+
+/-- The downtime bit follows the downtime operations and nothing else. -/
+theorem downtime_bit (c : Cfg) (s : MSt) (op : Op) :
+    (step c s op).1.inDowntime = (match op with
+      | .downtime on _ => on
+      | _ => s.inDowntime) := by
+  cases op with
+  | result new es ee now =>
+    cases hst : stale s.base ⟨new, es, now⟩
+    · rw [step_result c s new es ee now hst]
+    · rw [step_result_stale c s new es ee now hst]; simp [getAck_rest]
+  | ack via sticky notify persistent expiry now =>
+    rw [step_ack]
+    cases hc : (preRefuse c s via expiry now || ackNow s now != .none) <;> simp [getAck_rest]
+  | remove via now => rw [step_remove]
+  | advance now => rw [step_advance]; simp [getAck_rest]
+  | pump now fired => rw [step_pump]; simp [getAck_rest, pumped]
+  | downtime on now => rw [step_downtime]; simp [getAck_rest]
 
 /-- After an accepted result the object is a problem iff the result is not OK/Up. -/
 theorem problem_after_result (c : Cfg) (s : MSt) (new : SState) (es ee now : Int)
@@ -143,6 +174,8 @@ theorem ack_notify_once (c : Cfg) (s : MSt) (op : Op) :
     cases hc : (preRefuse c s via expiry now || ackNow s now != .none) <;> cases notify <;> simp
   | remove via now => rw [step_remove]; simp
   | advance now => rw [step_advance]; simp
+  | pump now fired => rw [step_pump]; simp
+  | downtime on now => rw [step_downtime]; simp
 
 /-- **refuse_ok_or_acked.**  The API action and the external commands refuse an object that is OK/Up; every entry
     point — the cluster handler included — refuses an object whose acknowledgement has not run out.  A refused
@@ -210,6 +243,23 @@ theorem ack_comments_removed (c : Cfg) (s : MSt) (new : SState) (es ee now : Int
     simp only at h
     simp [h]
 
+/-- The comment-expiry timer, when it runs, removes exactly the expired acknowledgement comments that are not
+    persistent, and never touches the acknowledgement itself beyond what the look does anyway. -/
+theorem comment_expiry_timer (c : Cfg) (s : MSt) (now : Int) :
+    (step c s (.pump now true)).1.comments = s.comments.filter (survivesExpiry now) ∧
+    (step c s (.pump now false)).1.comments = s.comments ∧
+    ∀ fired, (step c s (.pump now fired)).1.ack = (step c s (.advance now)).1.ack ∧
+             (step c s (.pump now fired)).2 = (step c s (.advance now)).2 := by
+  refine ⟨?_, ?_, ?_⟩
+  · rw [step_pump]; simp [getAck_rest, pumped]
+  · rw [step_pump]; simp [getAck_rest, pumped]
+  · intro fired
+    rw [step_pump, step_advance]
+    have he : expired (pumped s now fired) now = expired s now := rfl
+    cases hx : expired s now
+    · rw [getAck_of_not_expired _ _ (he.trans hx), getAck_of_not_expired _ _ hx]; simp [pumped]
+    · rw [getAck_of_expired _ _ (he.trans hx), getAck_of_expired _ _ hx]; simp [pumped]
+
 /-- Problem notifications are withheld while acknowledged: a result after which the object is acknowledged requests
     no Problem notification (it is stashed for C02's suppressed-notification handling). -/
 theorem problem_withheld_while_acked (c : Cfg) (s : MSt) (new : SState) (es ee now : Int)
@@ -247,7 +297,7 @@ def exHost : Cfg := { kind := .host, max := 2, volatile := false }
 /-- A hard CRITICAL service with a normal acknowledgement expiring at 2000 and two comments. -/
 def exNormal : MSt :=
   { base := ⟨.critical, .hard, 1, .critical, some 1000⟩, ack := .normal, expiry := 2000,
-    comments := [⟨1005, false⟩, ⟨1005, true⟩], suppPending := false }
+    comments := [⟨1005, false, 2000⟩, ⟨1005, true, 2000⟩], suppPending := false, inDowntime := false }
 
 def exSticky : MSt := { exNormal with ack := .sticky }
 
@@ -279,26 +329,42 @@ example : (step exCfg exNormal (.ack .api false true false 0 1100)).2.acc = fals
 
 -- `ack_comments_removed`: a late recovery (executed at 1003, processed at 1100) clears the acknowledgement but keeps
 -- the comments entered at 1005; a recovery executed at 1100 removes the non-persistent one
-example : (step exCfg exNormal (.result .ok 1003 1003 1100)).1.comments = [⟨1005, false⟩, ⟨1005, true⟩] ∧
-    (step exCfg exNormal (.result .ok 1100 1100 1100)).1.comments = [⟨1005, true⟩] := by decide
+example : (step exCfg exNormal (.result .ok 1003 1003 1100)).1.comments = [⟨1005, false, 2000⟩, ⟨1005, true, 2000⟩] ∧
+    (step exCfg exNormal (.result .ok 1100 1100 1100)).1.comments = [⟨1005, true, 2000⟩] := by decide
 
 -- `problem_withheld_while_acked` is not vacuous: without the acknowledgement the same result requests a Problem
 -- notification, with a sticky one it does not
 example : (step exCfg { exNormal with ack := .none } (.result .warning 1100 1100 1100)).2.nProbN = 1 ∧
     (step exCfg exSticky (.result .warning 1100 1100 1100)).2.nProbN = 0 := by decide
 
+-- `comment_expiry_timer`: at 2001 the timer removes the expired non-persistent comment and spares the persistent one;
+-- at 2000 nothing has expired yet; a timer that did not run removes nothing
+example : (step exCfg exNormal (.pump 2001 true)).1.comments = [⟨1005, true, 2000⟩] ∧
+    (step exCfg exNormal (.pump 2000 true)).1.comments = [⟨1005, false, 2000⟩, ⟨1005, true, 2000⟩] ∧
+    (step exCfg exNormal (.pump 2001 false)).1.comments = [⟨1005, false, 2000⟩, ⟨1005, true, 2000⟩] ∧
+    (step exCfg exNormal (.pump 2001 true)).1.ack = .none := by decide
+
+-- `handled_iff` with the downtime half: an unacknowledged problem is handled exactly while in a downtime, and a
+-- result in a downtime requests no Problem notification
+example : (obsOf exCfg (step exCfg { exNormal with ack := .none } (.downtime true 1100))).handled = true ∧
+    (obsOf exCfg (step exCfg { exNormal with ack := .none, inDowntime := true } (.downtime false 1100))).handled = false ∧
+    (step exCfg { exNormal with ack := .none, inDowntime := true } (.result .warning 1100 1100 1100)).2.nProbN = 0 := by
+  decide
+
 /-- A history through all entry points that exercises every kind of clearing. -/
 def exOps : List Op :=
   [.result .critical 1010 1010 1010, .ack .api false true false 1100 1020, .result .critical 1030 1030 1030,
    .result .warning 1040 1040 1040, .ack .ext true false true 0 1050, .result .critical 1060 1060 1060,
    .ack .cluster false true false 0 1065, .result .ok 1070 1070 1070, .result .unknown 1080 1080 1080,
-   .ack .cluster true true false 1090 1085, .advance 1095, .ack .extExpire false true false 0 1100, .remove .api 1110]
+   .ack .cluster true true false 1090 1085, .advance 1095, .ack .extExpire false true false 1105 1100, .pump 1104 true,
+   .downtime true 1105, .pump 1106 true, .remove .api 1110]
 
 example :
     (trace exCfg init exOps).map (fun p => (p.2.acc, p.2.ack, p.2.nSet, p.2.nClr)) =
       [(true, .none, 0, 0), (true, .normal, 1, 0), (true, .normal, 0, 0), (true, .none, 0, 1), (true, .sticky, 1, 0),
        (true, .sticky, 0, 0), (false, .sticky, 0, 0), (true, .none, 0, 1), (true, .none, 0, 0), (true, .sticky, 1, 0),
-       (true, .none, 0, 1), (true, .normal, 1, 0), (true, .none, 0, 1)] := by
+       (true, .none, 0, 1), (true, .normal, 1, 0), (true, .normal, 0, 0), (true, .normal, 0, 0), (true, .none, 0, 1),
+       (true, .none, 0, 0)] := by
   decide
 
 -- the regression case of F-C06a: the acknowledgement set by the `_EXPIRE` command stores its expiry and has run out at
@@ -308,10 +374,10 @@ example : (trace exCfg init regressionOps).map (fun p => (p.2.ack, p.2.expiry, p
   decide
 
 /-- … and the behaviour before the repair (acknowledgement still there at 1070) is what the specification rejects. -/
-example : specTrace exCfg { state := .critical, ack := .sticky, expiry := 1060, comments := [⟨1050, false⟩] }
+example : specTrace exCfg { state := .critical, ack := .sticky, expiry := 1060, comments := [⟨1050, false, 0⟩] }
     [(.advance 1070,
       { acc := true, ack := .sticky, expiry := 0, handled := true, problem := true, state := .critical, stype := .hard,
-        attempt := 1, nSet := 0, nClr := 0, nAckN := 0, nProbN := 0, comments := [⟨1050, false⟩] })]
+        attempt := 1, nSet := 0, nClr := 0, nAckN := 0, nProbN := 0, comments := [⟨1050, false, 0⟩] })]
     = some .expiryClears := by decide
 
 /-- The specification is not trivially true: a sticky acknowledgement that vanishes on CRITICAL → WARNING is rejected … -/
@@ -332,7 +398,7 @@ example : specTrace exCfg { state := .critical, ack := .normal, expiry := 1050, 
 example : specTrace exCfg { state := .ok, ack := .none, expiry := 0, comments := [] }
     [(.ack .api false true false 0 1100,
       { acc := true, ack := .normal, expiry := 0, handled := false, problem := false, state := .ok, stype := .hard,
-        attempt := 1, nSet := 1, nClr := 0, nAckN := 1, nProbN := 0, comments := [⟨1100, false⟩] })]
+        attempt := 1, nSet := 1, nClr := 0, nAckN := 1, nProbN := 0, comments := [⟨1100, false, 0⟩] })]
     = some .refuseOk := by decide
 
 /-- … a second acknowledgement accepted on top of one that has not run out (cluster handler) … -/
@@ -346,11 +412,11 @@ example : specTrace exCfg { state := .critical, ack := .normal, expiry := 2000, 
 example : specTrace exCfg { state := .critical, ack := .none, expiry := 0, comments := [] }
     [(.ack .api false true false 0 1100,
       { acc := true, ack := .normal, expiry := 0, handled := true, problem := true, state := .critical, stype := .hard,
-        attempt := 1, nSet := 1, nClr := 0, nAckN := 2, nProbN := 0, comments := [⟨1100, false⟩] })]
+        attempt := 1, nSet := 1, nClr := 0, nAckN := 2, nProbN := 0, comments := [⟨1100, false, 0⟩] })]
     = some .ackNotifyOnce := by decide
 
 /-- … and a comment entered after the clearing result's execution end that disappears. -/
-example : specTrace exCfg { state := .critical, ack := .normal, expiry := 0, comments := [⟨1050, false⟩] }
+example : specTrace exCfg { state := .critical, ack := .normal, expiry := 0, comments := [⟨1050, false, 0⟩] }
     [(.result .ok 1040 1040 1100,
       { acc := true, ack := .none, expiry := 0, handled := false, problem := false, state := .ok, stype := .hard,
         attempt := 1, nSet := 0, nClr := 1, nAckN := 0, nProbN := 0, comments := [] })]
